@@ -1,4 +1,1182 @@
 import A2lVerif.Lemmas.TreeTotal
-/-! helper lemmas for C06 (strict vs non-strict runs of the generic parser) -/
+/-!
+# helper lemmas for C06 (strict vs non-strict runs of the generic parser, Props/C06.lean)
+
+Two runs of the same program from the same state are compared: one in `nonStrict e`, one in `strictOf e`.
+Three relations on programs `P : PM α` (all quantify over the start state):
+
+* `Indep e P`: both runs give the same result (programs that never reach `errorOrLog` nor a `special` parser);
+* `Sim e P`  : the non-strict run only extends the log, and if it ends in `ok`/`err` having added deprecation notices
+  only, the strict run ends in the same result (used for `clean_nonstrict_implies_strict`);
+* `Fwd e P`  : if the strict run ends in `ok`, so does the non-strict run, with the same value and state
+  (used for `strict_implies_nonstrict_partial`).
+
+Each has the usual rules (`pure`, `bind`, `attempt`, the state primitives), one lemma per function of Model/Tree.lean,
+and the mutual block is done by induction on the fuel, as in Lemmas/TreeTotal.lean.
+-/
 namespace A2l.Tree
+open A2l.G A2l.Sc
+
+/-! ## the definitions of Props/C06.lean (moved here verbatim, restated there) -/
+
+def nonStrict (e : Env) : Env := { e with strict := false }
+def strictOf (e : Env) : Env := { e with strict := true }
+
+/-- deprecation notices: the only diagnostics that `log_warning` (as opposed to `error_or_log`) produces -/
+def IsNotice (d : Diag) : Prop := d.kind = .blockRefDeprecated ∨ d.kind = .enumRefDeprecated
+
+/-- item types whose parsers never call `error_or_log`: numbers only (arrays and structs of them) -/
+def quietItem (tbl : Table) : Nat → ItemTy → Bool
+  | _, .int _ => true
+  | _, .double => true
+  | _, .float => true
+  | fuel + 1, .arr of _ => quietItem tbl fuel of
+  | fuel + 1, .structRef ty => match tbl.lookup ty with
+    | some (.block false items [] false) => items.all (quietItem tbl fuel)
+    | _ => false
+  | _, _ => false
+
+/-- tables in which no sequence element can call `error_or_log`: then no strict-mode error is ever swallowed by the
+    greedy sequence loop (`sequence_item.is_err()`), the one place where the two modes can take different paths -/
+def seqSafe (tbl : Table) : Bool :=
+  tbl.all fun en => match en.def_ with
+    | .block _ items _ _ => items.all fun it => match it with
+      | .seq of _ => quietItem tbl tbl.length of
+      | _ => true
+    | _ => true
+
+/-- the hand-written parsers of the special types, as far as C06 is concerned -/
+def SpecialSim (e : Env) : Prop :=
+  ∀ ty ctx off s,
+    (∀ v s', e.special ty ctx off e.toks false s = .ok v s' →
+        (∃ l, s'.log = l ++ s.log ∧ ∀ d ∈ l, IsNotice d) → e.special ty ctx off e.toks true s = .ok v s') ∧
+    (∀ v s', e.special ty ctx off e.toks true s = .ok v s' → e.special ty ctx off e.toks false s = .ok v s') ∧
+    (∀ d s', e.special ty ctx off e.toks true s = .err d s' →
+        e.special ty ctx off e.toks false s = .err d s' ∨
+        ∃ v s'', e.special ty ctx off e.toks false s = .ok v s'' ∧ ∃ l, s''.log = l ++ s.log ∧ ∃ d' ∈ l, ¬ IsNotice d')
+
+/-! ## the definitions that the corrected statements need in addition -/
+
+/-- what `SpecialSim` does not say and `clean_nonstrict_implies_strict` needs: in non-strict mode the special parsers
+    only add to the log (also when they fail: the log of a failed element of a sequence stays), and a non-strict
+    failure without problems logged is also a strict failure (the sequence loop turns failures into values) -/
+def SpecialSimMore (e : Env) : Prop :=
+  ∀ ty ctx off s,
+    (∀ d s', e.special ty ctx off e.toks false s = .err d s' →
+        (∃ l, s'.log = l ++ s.log ∧ ∀ d ∈ l, IsNotice d) → e.special ty ctx off e.toks true s = .err d s') ∧
+    (∀ v s', e.special ty ctx off e.toks false s = .ok v s' → ∃ l, s'.log = l ++ s.log) ∧
+    (∀ d s', e.special ty ctx off e.toks false s = .err d s' → ∃ l, s'.log = l ++ s.log)
+
+/-- every sequence inside the item, also below arrays, has a quiet element type -/
+def seqSafeItem (tbl : Table) : ItemTy → Bool
+  | .seq of _ => quietItem tbl tbl.length of
+  | .arr of _ => seqSafeItem tbl of
+  | _ => true
+
+/-- `seqSafe`, also for sequences nested in arrays -/
+def seqSafeDeep (tbl : Table) : Bool :=
+  tbl.all fun en => match en.def_ with
+    | .block _ items _ _ => items.all (seqSafeItem tbl)
+    | _ => true
+
+theorem seqSafeDeep_seqSafe {tbl : Table} (h : seqSafeDeep tbl = true) : seqSafe tbl = true := by
+  unfold seqSafeDeep at h
+  unfold seqSafe
+  rw [List.all_eq_true] at h ⊢
+  intro en hen
+  have := h en hen
+  split
+  · rename_i items _ _ heq
+    rw [heq] at this
+    dsimp only at this
+    rw [List.all_eq_true] at this ⊢
+    intro it hit
+    have := this it hit
+    split
+    · simpa [seqSafeItem] using this
+    · rfl
+  · rfl
+
+@[simp] theorem nonStrict_toks (e : Env) : (nonStrict e).toks = e.toks := rfl
+@[simp] theorem strictOf_toks (e : Env) : (strictOf e).toks = e.toks := rfl
+@[simp] theorem nonStrict_table (e : Env) : (nonStrict e).table = e.table := rfl
+@[simp] theorem strictOf_table (e : Env) : (strictOf e).table = e.table := rfl
+@[simp] theorem nonStrict_known (e : Env) : (nonStrict e).known = e.known := rfl
+@[simp] theorem strictOf_known (e : Env) : (strictOf e).known = e.known := rfl
+
+/-! ## logs -/
+
+/-- the log `b` extends the log `a` by deprecation notices only -/
+def Clean (a b : List Diag) : Prop := ∃ l, b = l ++ a ∧ ∀ d ∈ l, IsNotice d
+
+theorem Clean.refl (a : List Diag) : Clean a a := ⟨[], rfl, fun _ h => nomatch h⟩
+
+theorem Clean.split {a b c : List Diag} (h1 : LExt a b) (h2 : LExt b c) (h : Clean a c) : Clean a b ∧ Clean b c := by
+  obtain ⟨l1, rfl⟩ := h1
+  obtain ⟨l2, rfl⟩ := h2
+  obtain ⟨l, hl, hn⟩ := h
+  have : l2 ++ l1 = l := by
+    rw [← List.append_assoc] at hl
+    exact List.append_cancel_right hl
+  subst this
+  exact ⟨⟨l1, rfl, fun d hd => hn d (List.mem_append.2 (.inr hd))⟩,
+    ⟨l2, rfl, fun d hd => hn d (List.mem_append.2 (.inl hd))⟩⟩
+
+theorem LExt.cons (d : Diag) (a : List Diag) : LExt a (d :: a) := ⟨[d], rfl⟩
+
+theorem Clean.cons_inv {d : Diag} {a : List Diag} (h : Clean a (d :: a)) : IsNotice d := by
+  obtain ⟨l, hl, hn⟩ := h
+  have : [d] = l := List.append_cancel_right (bs := a) hl
+  subst this
+  exact hn d (List.mem_singleton.2 rfl)
+
+/-! ## `Indep`: programs that do not depend on the mode -/
+
+variable {e : Env}
+
+def Indep2 (e : Env) {α} (P1 P2 : PM α) : Prop := ∀ s, P1 (strictOf e) s = P2 (nonStrict e) s
+def Indep (e : Env) {α} (P : PM α) : Prop := Indep2 e P P
+
+theorem Indep.pure {α} (a : α) : Indep e (Pure.pure a : PM α) := fun _ => rfl
+theorem Indep.fail {α} (k : DK) : Indep e (fail k : PM α) := fun _ => rfl
+theorem Indep.panic {α} : Indep e (panic : PM α) := fun _ => rfl
+theorem Indep.outOfFuel {α} : Indep e (outOfFuel : PM α) := fun _ => rfl
+
+theorem Indep.bind {α β} {m : PM α} {f : α → PM β} (h1 : Indep e m) (h2 : ∀ a, Indep e (f a)) : Indep e (m >>= f) := by
+  intro s
+  rw [bind_eq, bind_eq, h1 s]
+  cases m (nonStrict e) s with
+  | ok a s1 => exact h2 a s1
+  | err d s1 => rfl
+  | panic => rfl
+  | fuel => rfl
+
+theorem Indep.attempt {α} {m : PM α} (h : Indep e m) : Indep e (attempt m) := by
+  intro s
+  unfold A2l.Tree.attempt
+  rw [h s]
+
+/-- `f` reads the environment through `toks`, `table`, `known` only: then `f (strictOf e)` and `f (nonStrict e)` are
+    `f e` by `rfl` -/
+theorem Indep.getEnv_bind {β} {f : Env → PM β} (h1 : f (strictOf e) = f e) (h2 : f (nonStrict e) = f e)
+    (h : Indep e (f e)) : Indep e (getEnv >>= f) := by
+  intro s
+  show f (strictOf e) (strictOf e) s = f (nonStrict e) (nonStrict e) s
+  rw [h1, h2]
+  exact h s
+theorem Indep.getState_bind {β} {f : PState → PM β} (h : ∀ s0, Indep e (f s0)) : Indep e (getState >>= f) :=
+  fun s => h s s
+theorem Indep.getTokenpos_bind {β} {f : Nat → PM β} (h : ∀ p, Indep e (f p)) : Indep e (getTokenpos >>= f) :=
+  fun s => h s.pos s
+theorem Indep.peekToken_bind {β} {f : Option PTok → PM β} (h : ∀ o, Indep e (f o)) : Indep e (peekToken >>= f) :=
+  fun s => h e.toks[s.pos]? s
+
+theorem Indep.getToken (ctx : Ctx) : Indep e (getToken ctx) := by
+  intro s; rw [getToken_eval, getToken_eval]; rfl
+theorem Indep.undoGetToken : Indep e undoGetToken := by
+  intro s; rw [undo_eval, undo_eval]
+theorem Indep.getLineOffset : Indep e getLineOffset := by
+  unfold A2l.Tree.getLineOffset
+  refine Indep.getEnv_bind rfl rfl ?_
+  refine Indep.getState_bind (fun s0 => ?_)
+  repeat' split
+  all_goals try dsimp only
+  repeat' split
+  all_goals first | exact Indep.panic | exact Indep.pure _
+theorem Indep.setTokenpos (p : Nat) : Indep e (setTokenpos p) := fun _ => rfl
+theorem Indep.modifyState (g : PState → PState) : Indep e (modifyState g) := fun _ => rfl
+theorem Indep.getNextId : Indep e getNextId := fun _ => rfl
+theorem Indep.logWarning (k : DK) : Indep e (logWarning k) := fun _ => rfl
+
+theorem expectTokenAux_indep (ctx : Ctx) (ty : Nat) : ∀ fuel, Indep e (expectTokenAux ctx ty fuel)
+  | 0 => Indep.outOfFuel
+  | fuel + 1 => by
+    rw [expectTokenAux]
+    refine Indep.bind (Indep.getToken ctx) ?_
+    intro t
+    split
+    · exact expectTokenAux_indep ctx ty fuel
+    · split
+      · exact Indep.fail _
+      · exact Indep.pure _
+
+theorem expectToken_indep (ctx : Ctx) (ty : Nat) : Indep e (expectToken ctx ty) := by
+  unfold expectToken
+  exact Indep.getEnv_bind rfl rfl (expectTokenAux_indep ctx ty _)
+
+theorem getInteger_indep (ctx : Ctx) (w : Nat) : Indep e (getInteger ctx w) := by
+  unfold getInteger
+  refine Indep.bind (expectToken_indep ctx 5) ?_
+  intro t
+  split
+  · exact Indep.pure _
+  · exact Indep.fail _
+
+theorem getDouble_indep (ctx : Ctx) : Indep e (getDouble ctx) := by
+  unfold getDouble
+  refine Indep.bind (expectToken_indep ctx 5) ?_
+  intro t
+  split
+  · exact Indep.pure _
+  · exact Indep.fail _
+
+theorem getNextTagOrComment_indep (ctx : Ctx) : Indep e (getNextTagOrComment ctx) := by
+  unfold getNextTagOrComment
+  refine Indep.getTokenpos_bind ?_
+  intro tokenpos
+  refine Indep.peekToken_bind ?_
+  intro o
+  split
+  · refine Indep.bind (Indep.modifyState _) (fun _ => ?_)
+    exact Indep.bind Indep.getLineOffset (fun _ => Indep.pure _)
+  · refine Indep.bind (Indep.getToken ctx) (fun _ => ?_)
+    refine Indep.bind Indep.getLineOffset (fun _ => ?_)
+    refine Indep.bind (Indep.attempt (expectToken_indep ctx 0)) (fun r => ?_)
+    split
+    · exact Indep.pure _
+    · exact Indep.bind (Indep.setTokenpos _) (fun _ _ => rfl)
+  · refine Indep.bind (Indep.attempt (expectToken_indep ctx 0)) (fun r => ?_)
+    refine Indep.bind Indep.getLineOffset (fun _ => ?_)
+    split
+    · exact Indep.pure _
+    · exact Indep.bind (Indep.setTokenpos _) (fun _ => Indep.pure _)
+
+theorem skipUnknownLoop_indep (ctx : Ctx) (itemTag : List Char) (isB : Bool) (stop : List Nat) :
+    ∀ (fuel : Nat) (balance : Int), Indep e (skipUnknownLoop ctx itemTag isB stop balance fuel)
+  | 0, _ => Indep.outOfFuel
+  | fuel + 1, balance => by
+    have ih := skipUnknownLoop_indep ctx itemTag isB stop fuel
+    rw [skipUnknownLoop]
+    refine Indep.bind (Indep.getToken ctx) (fun t => ?_)
+    repeat' split
+    all_goals first
+      | exact ih _
+      | exact Indep.pure _
+      | exact Indep.fail _
+      | exact Indep.undoGetToken
+      | exact Indep.bind Indep.undoGetToken (fun _ => Indep.undoGetToken)
+      | exact Indep.bind Indep.undoGetToken (fun _ => Indep.pure _)
+
+/-! ## `Sim`: a non-strict run without problems is also a strict run -/
+
+/-- `r1`: result of the non-strict run, `r2`: of the strict run, `lg`: the log at the start -/
+def SimR {α} (lg : List Diag) (r1 r2 : PRes α) : Prop :=
+  match r1 with
+  | .ok a s' => LExt lg s'.log ∧ (Clean lg s'.log → r2 = .ok a s')
+  | .err d s' => LExt lg s'.log ∧ (Clean lg s'.log → r2 = .err d s')
+  | .panic => True
+  | .fuel => True
+
+def Sim (e : Env) {α} (P : PM α) : Prop := ∀ s, SimR s.log (P (nonStrict e) s) (P (strictOf e) s)
+
+/-- the program continues with one more entry in the log (both runs) -/
+theorem SimR.cons {α} {d : Diag} {lg : List Diag} {r1 r2 : PRes α} (h : SimR (d :: lg) r1 r2) : SimR lg r1 r2 := by
+  cases r1 with
+  | ok a s' =>
+    exact ⟨(LExt.cons d lg).trans h.1, fun hc => h.2 (Clean.split (LExt.cons d lg) h.1 hc).2⟩
+  | err d' s' =>
+    exact ⟨(LExt.cons d lg).trans h.1, fun hc => h.2 (Clean.split (LExt.cons d lg) h.1 hc).2⟩
+  | panic => trivial
+  | fuel => trivial
+
+/-- the non-strict run continues with a problem in the log: nothing is claimed about the strict run -/
+theorem SimR.bad {α} {d : Diag} {lg : List Diag} {r1 r2 r2' : PRes α} (hd : ¬ IsNotice d)
+    (h : SimR (d :: lg) r1 r2) : SimR lg r1 r2' := by
+  cases r1 with
+  | ok a s' =>
+    exact ⟨(LExt.cons d lg).trans h.1, fun hc => absurd (Clean.split (LExt.cons d lg) h.1 hc).1.cons_inv hd⟩
+  | err d' s' =>
+    exact ⟨(LExt.cons d lg).trans h.1, fun hc => absurd (Clean.split (LExt.cons d lg) h.1 hc).1.cons_inv hd⟩
+  | panic => trivial
+  | fuel => trivial
+
+theorem Sim.pure {α} (a : α) : Sim e (Pure.pure a : PM α) := fun _ => ⟨LExt.refl _, fun _ => rfl⟩
+theorem Sim.fail {α} (k : DK) : Sim e (fail k : PM α) := fun _ => ⟨LExt.refl _, fun _ => rfl⟩
+theorem Sim.panic {α} : Sim e (panic : PM α) := fun _ => trivial
+theorem Sim.outOfFuel {α} : Sim e (outOfFuel : PM α) := fun _ => trivial
+
+theorem Sim.bind {α β} {m : PM α} {f : α → PM β} (h1 : Sim e m) (h2 : ∀ a, Sim e (f a)) : Sim e (m >>= f) := by
+  intro s
+  rw [bind_eq, bind_eq]
+  have h1s := h1 s
+  cases hm : m (nonStrict e) s with
+  | ok a s1 =>
+    rw [hm] at h1s
+    obtain ⟨hx1, hc1⟩ := h1s
+    have h2s := h2 a s1
+    dsimp only
+    cases hf : f a (nonStrict e) s1 with
+    | ok b s2 =>
+      rw [hf] at h2s
+      obtain ⟨hx2, hc2⟩ := h2s
+      refine ⟨hx1.trans hx2, fun hc => ?_⟩
+      obtain ⟨c1, c2⟩ := Clean.split hx1 hx2 hc
+      rw [hc1 c1]
+      exact hc2 c2
+    | err d s2 =>
+      rw [hf] at h2s
+      obtain ⟨hx2, hc2⟩ := h2s
+      refine ⟨hx1.trans hx2, fun hc => ?_⟩
+      obtain ⟨c1, c2⟩ := Clean.split hx1 hx2 hc
+      rw [hc1 c1]
+      exact hc2 c2
+    | panic => trivial
+    | fuel => trivial
+  | err d s1 =>
+    rw [hm] at h1s
+    obtain ⟨hx1, hc1⟩ := h1s
+    refine ⟨hx1, fun hc => ?_⟩
+    rw [hc1 hc]
+  | panic => trivial
+  | fuel => trivial
+
+theorem Sim.attempt {α} {m : PM α} (h : Sim e m) : Sim e (attempt m) := by
+  intro s
+  unfold A2l.Tree.attempt
+  have hs := h s
+  cases hm : m (nonStrict e) s with
+  | ok a s1 =>
+    rw [hm] at hs
+    refine ⟨hs.1, fun hc => ?_⟩
+    rw [hs.2 hc]
+  | err d s1 =>
+    rw [hm] at hs
+    refine ⟨hs.1, fun hc => ?_⟩
+    rw [hs.2 hc]
+  | panic => trivial
+  | fuel => trivial
+
+theorem Sim.getEnv_bind {β} {f : Env → PM β} (h1 : f (nonStrict e) = f e) (h2 : f (strictOf e) = f e)
+    (h : Sim e (f e)) : Sim e (getEnv >>= f) := by
+  intro s
+  show SimR s.log (f (nonStrict e) (nonStrict e) s) (f (strictOf e) (strictOf e) s)
+  rw [h1, h2]
+  exact h s
+theorem Sim.getState_bind {β} {f : PState → PM β} (h : ∀ s0, Sim e (f s0)) : Sim e (getState >>= f) :=
+  fun s => h s s
+theorem Sim.getTokenpos_bind {β} {f : Nat → PM β} (h : ∀ p, Sim e (f p)) : Sim e (getTokenpos >>= f) :=
+  fun s => h s.pos s
+theorem Sim.peekToken_bind {β} {f : Option PTok → PM β} (h : ∀ o, Sim e (f o)) : Sim e (peekToken >>= f) :=
+  fun s => h e.toks[s.pos]? s
+
+/-- a program that does not depend on the mode and only extends the log -/
+theorem Sim.of_indep' {α} {P : PM α} (hi : Indep e P)
+    (hl : ∀ s, match P (nonStrict e) s with
+      | .ok _ s' => LExt s.log s'.log | .err _ s' => LExt s.log s'.log | _ => True) : Sim e P := by
+  intro s
+  have h1 := hl s
+  rw [hi s]
+  cases h : P (nonStrict e) s with
+  | ok a s' => rw [h] at h1; exact ⟨h1, fun _ => rfl⟩
+  | err d s' => rw [h] at h1; exact ⟨h1, fun _ => rfl⟩
+  | panic => trivial
+  | fuel => trivial
+
+theorem Sim.modifyState {g : PState → PState} (hg : ∀ s, (g s).log = s.log) : Sim e (modifyState g) :=
+  Sim.of_indep' (Indep.modifyState g) (fun s => by
+    show LExt s.log (g s).log
+    rw [hg s]; exact LExt.refl _)
+theorem Sim.setTokenpos (p : Nat) : Sim e (setTokenpos p) := Sim.modifyState (fun _ => rfl)
+theorem Sim.getNextId : Sim e getNextId :=
+  Sim.of_indep' Indep.getNextId (fun _ => LExt.refl _)
+theorem Sim.getToken (ctx : Ctx) : Sim e (getToken ctx) :=
+  Sim.of_indep' (Indep.getToken ctx) (fun s => by
+    rw [getToken_eval]
+    cases (nonStrict e).toks[s.pos]? <;> exact LExt.refl _)
+theorem Sim.undoGetToken : Sim e undoGetToken :=
+  Sim.of_indep' Indep.undoGetToken (fun s => by
+    rw [undo_eval]
+    by_cases h : s.pos = 0
+    · rw [if_pos h]; trivial
+    · rw [if_neg h]; exact LExt.refl _)
+theorem Sim.getLineOffset : Sim e getLineOffset :=
+  Sim.of_indep' Indep.getLineOffset (fun s => by
+    rcases getLineOffset_cases (nonStrict e) s with h | ⟨n, h⟩ <;> rw [h]
+    · trivial
+    · exact LExt.refl _)
+
+theorem errorOrLog_nonStrict (k : DK) (s : PState) :
+    errorOrLog k (nonStrict e) s = .ok () { s with log := ⟨k, s.lastLine⟩ :: s.log } := by
+  unfold errorOrLog
+  simp only [getEnv_bind]
+  split
+  · rename_i h; cases h
+  · rfl
+theorem errorOrLog_strict (k : DK) (s : PState) : errorOrLog k (strictOf e) s = .err ⟨k, s.lastLine⟩ s := by
+  unfold errorOrLog
+  simp only [getEnv_bind]
+  split
+  · rfl
+  · rename_i h; exact absurd rfl h
+theorem errorOrLogNoLine_nonStrict (k : DK) (s : PState) :
+    errorOrLogNoLine k (nonStrict e) s = .ok () { s with log := ⟨k, 0⟩ :: s.log } := by
+  unfold errorOrLogNoLine
+  simp only [getEnv_bind]
+  split
+  · rename_i h; cases h
+  · rfl
+theorem errorOrLogNoLine_strict (k : DK) (s : PState) : errorOrLogNoLine k (strictOf e) s = .err ⟨k, 0⟩ s := by
+  unfold errorOrLogNoLine
+  simp only [getEnv_bind]
+  split
+  · rfl
+  · rename_i h; exact absurd rfl h
+
+theorem not_notice {k : DK} {n : Nat} (hk : k ≠ .blockRefDeprecated ∧ k ≠ .enumRefDeprecated) : ¬ IsNotice ⟨k, n⟩ :=
+  fun h => h.elim hk.1 hk.2
+
+theorem Sim.errorOrLog_bind {β} {k : DK} {f : Unit → PM β} (hk : k ≠ .blockRefDeprecated ∧ k ≠ .enumRefDeprecated)
+    (h : Sim e (f ())) : Sim e (errorOrLog k >>= f) := by
+  intro s
+  rw [bind_eq, bind_eq, errorOrLog_nonStrict, errorOrLog_strict]
+  exact SimR.bad (not_notice hk) (h { s with log := ⟨k, s.lastLine⟩ :: s.log })
+
+theorem Sim.eol {k : DK} (hk : k ≠ .blockRefDeprecated ∧ k ≠ .enumRefDeprecated) : Sim e (errorOrLog k) := by
+  intro s
+  rw [errorOrLog_nonStrict, errorOrLog_strict]
+  exact SimR.bad (r2 := .ok () { s with log := ⟨k, s.lastLine⟩ :: s.log }) (not_notice hk)
+    ⟨LExt.refl _, fun _ => rfl⟩
+
+theorem Sim.errorOrLogNoLine_bind {β} {k : DK} {f : Unit → PM β}
+    (hk : k ≠ .blockRefDeprecated ∧ k ≠ .enumRefDeprecated)
+    (h : Sim e (f ())) : Sim e (errorOrLogNoLine k >>= f) := by
+  intro s
+  rw [bind_eq, bind_eq, errorOrLogNoLine_nonStrict, errorOrLogNoLine_strict]
+  exact SimR.bad (not_notice hk) (h { s with log := ⟨k, 0⟩ :: s.log })
+
+theorem Sim.logWarning_bind {β} {k : DK} {f : Unit → PM β} (h : Sim e (f ())) : Sim e (logWarning k >>= f) := by
+  intro s
+  rw [bind_eq, bind_eq, logWarning_eval, logWarning_eval]
+  exact SimR.cons (h { s with log := ⟨k, s.lastLine⟩ :: s.log })
+
+theorem Sim.condE {β} {p : Prop} [Decidable p] {k : DK} {f : Unit → PM β}
+    (hk : k ≠ .blockRefDeprecated ∧ k ≠ .enumRefDeprecated) (h : Sim e (f ())) :
+    Sim e (if p then errorOrLog k >>= f else f ()) := by
+  split
+  · exact Sim.errorOrLog_bind hk h
+  · exact h
+
+theorem Sim.condW {β} {p : Prop} [Decidable p] {k : DK} {f : Unit → PM β} (h : Sim e (f ())) :
+    Sim e (if p then logWarning k >>= f else f ()) := by
+  split
+  · exact Sim.logWarning_bind h
+  · exact h
+
+theorem Sim.condF {β} {p : Prop} [Decidable p] {k : DK} {f : Unit → PM β} (h : Sim e (f ())) :
+    Sim e (if p then (A2l.Tree.fail k : PM Unit) >>= f else f ()) := by
+  split
+  · exact Sim.bind (Sim.fail k) (fun _ => h)
+  · exact h
+
+theorem Sim.ite {α} {p : Prop} [Decidable p] {a b : PM α} (h1 : Sim e a) (h2 : Sim e b) :
+    Sim e (if p then a else b) := by
+  split
+  · exact h1
+  · exact h2
+
+theorem Sim.ite_bind {α β} {p : Prop} [Decidable p] {a b : PM α} {f : α → PM β}
+    (h : Sim e ((if p then a else b) >>= f)) : Sim e (if p then a >>= f else b >>= f) := by
+  split
+  · rename_i hp; rw [if_pos hp] at h; exact h
+  · rename_i hp; rw [if_neg hp] at h; exact h
+
+/-! ### the log of the non-strict run only grows: an instance of the judgement of Lemmas/TreeTotal.lean -/
+
+/-- nothing but the log is tracked -/
+def cfgLog (e : Env)
+    (hm : ∀ ty ctx off s,
+      (∀ v s', e.special ty ctx off e.toks e.strict s = .ok v s' → LExt s.log s'.log) ∧
+      (∀ d s', e.special ty ctx off e.toks e.strict s = .err d s' → LExt s.log s'.log)) : Cfg e where
+  PB := False
+  NP := False
+  L := LExt
+  np_pb := fun h => h.elim
+  tok := fun h => h.elim
+  ne := fun h => h.elim
+  tbl := fun h => h.elim
+  L_refl := LExt.refl
+  L_trans := LExt.trans
+  L_log := fun d l _ => ⟨[d], rfl⟩
+  special := by
+    intro ty ctx off s hs
+    obtain ⟨h2, h3⟩ := hm ty ctx off s
+    unfold SafeRaw
+    split
+    · rename_i a s' heq
+      exact ⟨fun h => h.elim, h2 _ _ heq, trivial⟩
+    · rename_i d s' heq
+      exact ⟨fun h => h.elim, h3 _ _ heq⟩
+    · exact fun h => h
+    · trivial
+
+def cfgNS (e : Env) (hm : SpecialSimMore e) : Cfg (nonStrict e) :=
+  cfgLog (nonStrict e) (fun ty ctx off s => ⟨(hm ty ctx off s).2.1, (hm ty ctx off s).2.2⟩)
+
+theorem Sim.of_indep {α} {P : PM α} (hm : SpecialSimMore e) (hi : Indep e P) {Q : PState → α → PState → Prop}
+    (hs : ∀ s, Safe (cfgNS e hm) s.pos s.log (P (nonStrict e) s) (Q s)) : Sim e P :=
+  Sim.of_indep' hi (fun s => by
+    have h := hs s
+    cases hr : P (nonStrict e) s with
+    | ok a s' => rw [hr] at h; exact h.2.1
+    | err d s' => rw [hr] at h; exact h.2
+    | panic => trivial
+    | fuel => trivial)
+
+section sim
+variable (hsp : SpecialSim e) (hm : SpecialSimMore e)
+include hm
+
+theorem expectToken_sim (ctx : Ctx) (ty : Nat) : Sim e (expectToken ctx ty) :=
+  Sim.of_indep hm (expectToken_indep ctx ty) (fun s => expectToken_safe (cfgNS e hm) ctx ty s (fun h => False.elim h))
+theorem getInteger_sim (ctx : Ctx) (w : Nat) : Sim e (getInteger ctx w) :=
+  Sim.of_indep hm (getInteger_indep ctx w) (fun s => getInteger_safe (cfgNS e hm) ctx w s (fun h => False.elim h))
+theorem getDouble_sim (ctx : Ctx) : Sim e (getDouble ctx) :=
+  Sim.of_indep hm (getDouble_indep ctx) (fun s => getDouble_safe (cfgNS e hm) ctx s (fun h => False.elim h))
+theorem getNextTagOrComment_sim (ctx : Ctx) : Sim e (getNextTagOrComment ctx) :=
+  Sim.of_indep hm (getNextTagOrComment_indep ctx) (fun s => getNextTagOrComment_safe (cfgNS e hm) ctx s (fun h => False.elim h))
+theorem skipUnknownLoop_sim (ctx : Ctx) (itemTag : List Char) (isB : Bool) (stop : List Nat) (balance : Int)
+    (fuel : Nat) : Sim e (skipUnknownLoop ctx itemTag isB stop balance fuel) :=
+  Sim.of_indep hm (skipUnknownLoop_indep ctx itemTag isB stop fuel balance)
+    (fun s => skipUnknownLoop_safe (cfgNS e hm) ctx itemTag isB stop s.pos s.log fuel balance s (fun h => False.elim h)
+      (fun h => False.elim h) (LExt.refl _))
+
+theorem getIdentifier_sim (ctx : Ctx) : Sim e (getIdentifier ctx) := by
+  unfold getIdentifier
+  refine Sim.bind (expectToken_sim hm ctx 0) (fun t => ?_)
+  split
+  · exact Sim.panic
+  · dsimp only
+    exact Sim.condE (by decide) (Sim.pure _)
+
+theorem getString_sim (ctx : Ctx) : Sim e (getString ctx) := by
+  unfold getString
+  refine Sim.peekToken_bind (fun o => ?_)
+  split
+  · refine Sim.bind (getIdentifier_sim hm ctx) (fun text => ?_)
+    exact Sim.errorOrLog_bind (by decide) (Sim.pure _)
+  · refine Sim.bind (expectToken_sim hm ctx 4) (fun t => ?_)
+    split
+    · exact Sim.pure _
+    · exact Sim.panic
+
+theorem getStringMaxlen_sim (ctx : Ctx) (n : Nat) : Sim e (getStringMaxlen ctx n) := by
+  unfold getStringMaxlen
+  refine Sim.bind (getString_sim hm ctx) (fun text => ?_)
+  dsimp only
+  exact Sim.condE (by decide) (Sim.pure _)
+
+theorem parseEnum_sim (items : List EnumItem) (ctx : Ctx) : Sim e (parseEnum items ctx) := by
+  unfold parseEnum
+  refine Sim.bind (getIdentifier_sim hm ctx) (fun name => ?_)
+  refine Sim.getEnv_bind rfl rfl ?_
+  refine Sim.getState_bind (fun s0 => ?_)
+  dsimp only
+  split
+  · refine Sim.condE (by decide) ?_
+    refine Sim.condW ?_
+    exact Sim.pure _
+  · exact Sim.fail _
+
+theorem handleUnknown_sim (ctx : Ctx) (itemTag : List Char) (isB : Bool) (stop : List Nat) :
+    Sim e (handleUnknownTaggedstructTag ctx itemTag isB stop) := by
+  unfold handleUnknownTaggedstructTag
+  refine Sim.errorOrLog_bind (by decide) ?_
+  refine Sim.bind (Sim.getToken ctx) (fun _ => ?_)
+  refine Sim.bind Sim.undoGetToken (fun _ => ?_)
+  refine Sim.getEnv_bind rfl rfl ?_
+  exact skipUnknownLoop_sim hm ctx itemTag isB stop _ _
+
+/-! ### the mutual block -/
+
+structure AllSim (e : Env) (fuel : Nat) : Prop where
+  item : ∀ ctx it, Sim e (parseItem fuel ctx it)
+  arr : ∀ ctx of n, Sim e (parseArr fuel ctx of n)
+  seq : ∀ ctx of stop acc, Sim e (parseSeq fuel ctx of stop acc)
+  items : ∀ ctx its, Sim e (parseItems fuel ctx its)
+  tagged : ∀ ctx arms pib ch cm, Sim e (parseTagged fuel ctx arms pib ch cm)
+  type : ∀ ty ctx off, Sim e (parseType fuel ty ctx off)
+
+omit hm in
+theorem allSim_zero : AllSim e 0 := by
+  constructor
+  · intro ctx it; rw [parseItem]; exact Sim.outOfFuel
+  · intro ctx of n; rw [parseArr]; exact Sim.outOfFuel
+  · intro ctx of stop acc; rw [parseSeq]; exact Sim.outOfFuel
+  · intro ctx its; rw [parseItems]; exact Sim.outOfFuel
+  · intro ctx arms pib ch cm; rw [parseTagged]; exact Sim.outOfFuel
+  · intro ty ctx off; rw [parseType]; exact Sim.outOfFuel
+
+omit hm in
+theorem Sim.scalar {α} {m : PM α} {g : α → Nat → Val} (h : Sim e m) :
+    Sim e (m >>= fun v => A2l.Tree.getLineOffset >>= fun off => Pure.pure (g v off)) :=
+  Sim.bind h (fun _ => Sim.bind Sim.getLineOffset (fun _ => Sim.pure _))
+
+theorem parseItem_sim {fuel : Nat} (ih : AllSim e fuel) (ctx : Ctx) (it : ItemTy) :
+    Sim e (parseItem (fuel + 1) ctx it) := by
+  cases it with
+  | ident => rw [parseItem]; exact Sim.scalar (getIdentifier_sim hm ctx)
+  | string => rw [parseItem]; exact Sim.scalar (getString_sim hm ctx)
+  | double => rw [parseItem]; exact Sim.scalar (getDouble_sim hm ctx)
+  | float => rw [parseItem]; exact Sim.scalar (getDouble_sim hm ctx)
+  | int w =>
+    rw [parseItem]
+    refine Sim.bind (getInteger_sim hm ctx w) (fun x => ?_)
+    exact Sim.bind Sim.getLineOffset (fun _ => Sim.pure _)
+  | strMax n =>
+    rw [parseItem]
+    exact Sim.bind (getStringMaxlen_sim hm ctx n) (fun _ => Sim.pure _)
+  | enumRef ty =>
+    rw [parseItem]
+    refine Sim.getEnv_bind rfl rfl ?_
+    split
+    · exact Sim.scalar (parseEnum_sim hm _ ctx)
+    · exact Sim.panic
+  | structRef ty => rw [parseItem]; exact ih.type ty ctx 0
+  | arr of dim => rw [parseItem]; exact Sim.bind (ih.arr ctx of dim) (fun _ => Sim.pure _)
+  | seq of stop => rw [parseItem]; exact Sim.bind (ih.seq ctx of stop []) (fun _ => Sim.pure _)
+
+omit hm in
+theorem parseArr_sim {fuel : Nat} (ih : AllSim e fuel) (ctx : Ctx) (of : ItemTy) (n : Nat) :
+    Sim e (parseArr (fuel + 1) ctx of n) := by
+  cases n with
+  | zero => rw [parseArr]; exact Sim.pure _
+  | succ n =>
+    rw [parseArr]
+    exact Sim.bind (ih.item ctx of) (fun _ => Sim.bind (ih.arr ctx of n) (fun _ => Sim.pure _))
+
+omit hm in
+theorem parseItems_sim {fuel : Nat} (ih : AllSim e fuel) (ctx : Ctx) (its : List ItemTy) :
+    Sim e (parseItems (fuel + 1) ctx its) := by
+  cases its with
+  | nil => rw [parseItems]; exact Sim.pure _
+  | cons it its =>
+    rw [parseItems]
+    exact Sim.bind (ih.item ctx it) (fun _ => Sim.bind (ih.items ctx its) (fun _ => Sim.pure _))
+
+omit hm in
+theorem parseSeq_sim {fuel : Nat} (ih : AllSim e fuel) (ctx : Ctx) (of : ItemTy) (stop : List Nat) (acc : List Val) :
+    Sim e (parseSeq (fuel + 1) ctx of stop acc) := by
+  rw [parseSeq]
+  refine Sim.getTokenpos_bind (fun cur => ?_)
+  refine Sim.bind (Sim.attempt (ih.item ctx of)) (fun r => ?_)
+  split
+  · exact Sim.bind (Sim.setTokenpos _) (fun _ => Sim.pure _)
+  · refine Sim.getEnv_bind rfl rfl ?_
+    refine Sim.getState_bind (fun s0 => ?_)
+    dsimp only
+    refine Sim.ite ?_ ?_
+    · exact Sim.bind (Sim.setTokenpos _) (fun _ => Sim.pure _)
+    · exact ih.seq ctx of stop _
+
+theorem parseTagged_sim {fuel : Nat} (ih : AllSim e fuel) (ctx : Ctx) (arms : List Arm) (pib : Bool)
+    (ch : List (List Val)) (cm : List Cmt) : Sim e (parseTagged (fuel + 1) ctx arms pib ch cm) := by
+  rw [parseTagged]
+  refine Sim.bind (getNextTagOrComment_sim hm ctx) (fun bc => ?_)
+  cases bc with
+  | comment tok off =>
+    dsimp only
+    refine Sim.ite ?_ ?_
+    · exact Sim.bind Sim.getNextId (fun _ => ih.tagged _ _ _ _ _)
+    · exact ih.tagged _ _ _ _ _
+  | none => exact Sim.pure _
+  | block tok isB off =>
+    dsimp only
+    generalize List.findIdx? (fun x => x.tag == tok.sym) arms = oi
+    cases oi with
+    | none =>
+      dsimp only
+      refine Sim.ite ?_ ?_
+      · exact Sim.bind (handleUnknown_sim hm ctx _ _ _) (fun _ => ih.tagged _ _ _ _ _)
+      · refine Sim.ite ?_ ?_
+        · exact Sim.bind Sim.undoGetToken (fun _ => Sim.bind Sim.undoGetToken (fun _ => Sim.pure _))
+        · exact Sim.bind Sim.undoGetToken (fun _ => Sim.pure _)
+    | some i =>
+      dsimp only
+      generalize arms[i]? = oarm
+      cases oarm with
+      | none => exact Sim.panic
+      | some arm =>
+        dsimp only
+        refine Sim.condF ?_
+        refine Sim.condF ?_
+        refine Sim.getState_bind (fun s0 => ?_)
+        refine Sim.condE (by decide) ?_
+        refine Sim.getState_bind (fun s1 => ?_)
+        refine Sim.condW ?_
+        refine Sim.bind (ih.type _ _ _) (fun v => ?_)
+        refine Sim.ite ?_ ?_
+        · exact ih.tagged _ _ _ _ _
+        · exact Sim.condE (by decide) (ih.tagged _ _ _ _ _)
+
+omit hm in
+theorem foldlM_sim {X : Type} (F : Unit → X → PM Unit) (hF : ∀ u x, Sim e (F u x)) :
+    ∀ (l : List X) (u : Unit), Sim e (List.foldlM F u l)
+  | [], u => by rw [List.foldlM_nil]; exact Sim.pure _
+  | x :: l, u => by
+    rw [List.foldlM_cons]
+    exact Sim.bind (hF u x) (fun u' => foldlM_sim F hF l u')
+
+include hsp in
+theorem special_sim (ty : Nat) (ctx : Ctx) (off : Nat) :
+    Sim e (fun e s => e.special ty ctx off e.toks e.strict s) := by
+  intro s
+  obtain ⟨h1, -, -⟩ := hsp ty ctx off s
+  obtain ⟨h2, h3, h4⟩ := hm ty ctx off s
+  show SimR s.log (e.special ty ctx off e.toks false s) (e.special ty ctx off e.toks true s)
+  cases hr : e.special ty ctx off e.toks false s with
+  | ok v s' => exact ⟨h3 v s' hr, fun hc => h1 v s' hr hc⟩
+  | err d s' => exact ⟨h4 d s' hr, fun hc => h2 d s' hr hc⟩
+  | panic => trivial
+  | fuel => trivial
+
+include hsp in
+theorem parseType_sim {fuel : Nat} (ih : AllSim e fuel) (ty : Nat) (ctx : Ctx) (off : Nat) :
+    Sim e (parseType (fuel + 1) ty ctx off) := by
+  rw [parseType]
+  refine Sim.getEnv_bind rfl rfl ?_
+  split
+  · rename_i isB items arms hT _
+    refine Sim.bind Sim.getNextId (fun uid => ?_)
+    refine Sim.bind (ih.items ctx items) (fun fields => ?_)
+    refine Sim.ite_bind ?_
+    refine Sim.bind (Sim.ite (ih.tagged _ _ _ _ _) (Sim.pure _)) (fun x => ?_)
+    obtain ⟨children, comments⟩ := x
+    dsimp only
+    refine Sim.bind (foldlM_sim _ ?_ _ _) (fun _ => ?_)
+    · intro u ac
+      refine Sim.ite (Sim.ite ?_ (Sim.fail _)) (Sim.pure _)
+      exact Sim.eol (by decide)
+    · refine Sim.ite ?_ (Sim.pure _)
+      refine Sim.bind (expectToken_sim hm ctx 2) (fun _ => ?_)
+      refine Sim.bind Sim.getLineOffset (fun endOff => ?_)
+      refine Sim.bind (getIdentifier_sim hm ctx) (fun ident => ?_)
+      exact Sim.condE (by decide) (Sim.pure _)
+  · exact special_sim hsp hm ty ctx off
+  · exact Sim.panic
+
+include hsp in
+theorem allSim : ∀ fuel, AllSim e fuel
+  | 0 => allSim_zero
+  | fuel + 1 =>
+    have ih := allSim fuel
+    ⟨parseItem_sim hm ih, parseArr_sim ih, parseSeq_sim ih, parseItems_sim ih, parseTagged_sim hm ih,
+     parseType_sim hsp hm ih⟩
+
+/-! ### `parse_version`, `parse_file` -/
+
+omit hm in
+theorem resetTail_sim (k : DK) (n : Nat) (hk : k ≠ .blockRefDeprecated ∧ k ≠ .enumRefDeprecated) :
+    Sim e (setTokenpos 0 >>= fun _ => errorOrLogNoLine k >>= fun _ => Pure.pure n) :=
+  Sim.bind (Sim.setTokenpos 0) (fun _ => Sim.errorOrLogNoLine_bind hk (Sim.pure _))
+
+include hsp in
+theorem parseVersion_sim (fuel : Nat) (ctx : Ctx) : Sim e (parseVersion fuel ctx) := by
+  unfold parseVersion
+  refine Sim.getEnv_bind rfl rfl ?_
+  refine Sim.peekToken_bind (fun o => ?_)
+  cases o with
+  | none => exact resetTail_sim _ _ (by decide)
+  | some token =>
+    dsimp only
+    refine Sim.bind (Sim.attempt (getIdentifier_sim hm ctx)) (fun ident => ?_)
+    refine Sim.ite ?_ (resetTail_sim _ _ (by decide))
+    refine Sim.bind (Sim.attempt ((allSim hsp hm fuel).type _ _ _)) (fun r => ?_)
+    refine Sim.bind (Sim.setTokenpos 0) (fun _ => ?_)
+    split
+    · split
+      · exact Sim.pure _
+      · exact Sim.errorOrLogNoLine_bind (by decide) (Sim.pure _)
+    · exact Sim.panic
+    · exact Sim.errorOrLogNoLine_bind (by decide) (Sim.pure _)
+
+include hsp in
+theorem parseFile_sim (fuel : Nat) : Sim e (parseFile fuel) := by
+  unfold parseFile
+  refine Sim.getEnv_bind rfl rfl ?_
+  dsimp only
+  refine Sim.bind (parseVersion_sim hsp hm fuel _) (fun ver => ?_)
+  refine Sim.bind (Sim.modifyState (fun _ => rfl)) (fun _ => ?_)
+  refine Sim.bind ((allSim hsp hm fuel).type _ _ _) (fun file => ?_)
+  refine Sim.peekToken_bind (fun o => ?_)
+  split
+  · exact Sim.errorOrLog_bind (by decide) (Sim.pure _)
+  · exact Sim.pure _
+
+end sim
+
+/-! ## quiet items do not depend on the mode -/
+
+theorem scalarItem_indep {it : ItemTy} (h : (∃ w, it = .int w) ∨ it = .double ∨ it = .float) :
+    ∀ fuel ctx, Indep e (parseItem fuel ctx it) := by
+  intro fuel ctx
+  cases fuel with
+  | zero => rw [parseItem]; exact Indep.outOfFuel
+  | succ fuel =>
+    rcases h with ⟨w, rfl⟩ | rfl | rfl
+    · rw [parseItem]
+      exact Indep.bind (getInteger_indep ctx w) (fun _ => Indep.bind Indep.getLineOffset (fun _ => Indep.pure _))
+    · rw [parseItem]
+      exact Indep.bind (getDouble_indep ctx) (fun _ => Indep.bind Indep.getLineOffset (fun _ => Indep.pure _))
+    · rw [parseItem]
+      exact Indep.bind (getDouble_indep ctx) (fun _ => Indep.bind Indep.getLineOffset (fun _ => Indep.pure _))
+
+theorem parseArr_indep {of : ItemTy} (h : ∀ fuel ctx, Indep e (parseItem fuel ctx of)) :
+    ∀ fuel ctx n, Indep e (parseArr fuel ctx of n)
+  | 0, _, _ => by rw [parseArr]; exact Indep.outOfFuel
+  | fuel + 1, ctx, 0 => by rw [parseArr]; exact Indep.pure _
+  | fuel + 1, ctx, n + 1 => by
+    rw [parseArr]
+    exact Indep.bind (h fuel ctx) (fun _ => Indep.bind (parseArr_indep h fuel ctx n) (fun _ => Indep.pure _))
+
+theorem parseItems_indep : ∀ (fuel : Nat) (ctx : Ctx) (its : List ItemTy),
+    (∀ it ∈ its, ∀ fuel ctx, Indep e (parseItem fuel ctx it)) → Indep e (parseItems fuel ctx its)
+  | 0, _, _, _ => by rw [parseItems]; exact Indep.outOfFuel
+  | fuel + 1, ctx, [], _ => by rw [parseItems]; exact Indep.pure _
+  | fuel + 1, ctx, it :: its, h => by
+    rw [parseItems]
+    exact Indep.bind (h it (List.mem_cons_self ..) fuel ctx) (fun _ =>
+      Indep.bind (parseItems_indep fuel ctx its (fun it' hit' => h it' (List.mem_cons_of_mem _ hit'))) (fun _ =>
+        Indep.pure _))
+
+/-- a keyword / struct without tagged part whose parameters are quiet -/
+theorem parseType_quiet_indep {ty : Nat} {items : List ItemTy}
+    (hlk : e.table.lookup ty = some (.block false items [] false))
+    (hitems : ∀ fuel ctx, Indep e (parseItems fuel ctx items)) :
+    ∀ fuel ctx off, Indep e (parseType fuel ty ctx off) := by
+  intro fuel ctx off
+  cases fuel with
+  | zero => rw [parseType]; exact Indep.outOfFuel
+  | succ fuel =>
+    rw [parseType]
+    refine Indep.getEnv_bind rfl rfl ?_
+    simp only [hlk]
+    refine Indep.bind Indep.getNextId (fun uid => ?_)
+    refine Indep.bind (hitems fuel ctx) (fun fields => ?_)
+    simp only [Bool.false_eq_true, if_false]
+    refine Indep.bind (Indep.pure _) (fun x => ?_)
+    obtain ⟨children, comments⟩ := x
+    simp only [List.zip_nil_left, List.foldlM_nil]
+    exact Indep.bind (Indep.pure _) (fun _ => Indep.pure _)
+
+theorem quiet_indep : ∀ (n : Nat) (it : ItemTy), quietItem e.table n it = true →
+    ∀ fuel ctx, Indep e (parseItem fuel ctx it) := by
+  intro n
+  induction n with
+  | zero =>
+    intro it h
+    cases it <;> simp [quietItem] at h
+    · exact scalarItem_indep (.inr (.inl rfl))
+    · exact scalarItem_indep (.inr (.inr rfl))
+    · exact scalarItem_indep (.inl ⟨_, rfl⟩)
+  | succ n ih =>
+    intro it h
+    cases it with
+    | double => exact scalarItem_indep (.inr (.inl rfl))
+    | float => exact scalarItem_indep (.inr (.inr rfl))
+    | int w => exact scalarItem_indep (.inl ⟨_, rfl⟩)
+    | ident => simp [quietItem] at h
+    | string => simp [quietItem] at h
+    | strMax n => simp [quietItem] at h
+    | enumRef ty => simp [quietItem] at h
+    | seq of stop => simp [quietItem] at h
+    | arr of dim =>
+      have h' : quietItem e.table n of = true := by simpa [quietItem] using h
+      intro fuel ctx
+      cases fuel with
+      | zero => rw [parseItem]; exact Indep.outOfFuel
+      | succ fuel =>
+        rw [parseItem]
+        exact Indep.bind (parseArr_indep (ih of h') fuel ctx dim) (fun _ => Indep.pure _)
+    | structRef ty =>
+      unfold quietItem at h
+      split at h
+      · rename_i items hlk
+        intro fuel ctx
+        cases fuel with
+        | zero => rw [parseItem]; exact Indep.outOfFuel
+        | succ fuel =>
+          rw [parseItem]
+          refine parseType_quiet_indep hlk ?_ fuel ctx 0
+          intro fuel' ctx'
+          exact parseItems_indep fuel' ctx' items (fun it hit => ih it (List.all_eq_true.1 h it hit))
+      · cases h
+
+/-! ## `Fwd`: a successful strict run is also a non-strict run -/
+
+def Fwd (e : Env) {α} (P : PM α) : Prop :=
+  ∀ s a s', P (strictOf e) s = .ok a s' → P (nonStrict e) s = .ok a s'
+
+theorem Fwd.of_indep {α} {P : PM α} (h : Indep e P) : Fwd e P := fun s a s' hr => by rw [← h s]; exact hr
+
+theorem Fwd.pure {α} (a : α) : Fwd e (Pure.pure a : PM α) := Fwd.of_indep (Indep.pure a)
+theorem Fwd.fail {α} (k : DK) : Fwd e (fail k : PM α) := Fwd.of_indep (Indep.fail k)
+theorem Fwd.panic {α} : Fwd e (panic : PM α) := Fwd.of_indep Indep.panic
+theorem Fwd.outOfFuel {α} : Fwd e (outOfFuel : PM α) := Fwd.of_indep Indep.outOfFuel
+
+theorem Fwd.bind {α β} {m : PM α} {f : α → PM β} (h1 : Fwd e m) (h2 : ∀ a, Fwd e (f a)) : Fwd e (m >>= f) := by
+  intro s b s2 hr
+  obtain ⟨a, s1, hm, hf⟩ := bind_eq_ok hr
+  rw [bind_eq, h1 s a s1 hm]
+  exact h2 a s1 b s2 hf
+
+theorem Fwd.getEnv_bind {β} {f : Env → PM β} (h1 : f (strictOf e) = f e) (h2 : f (nonStrict e) = f e)
+    (h : Fwd e (f e)) : Fwd e (getEnv >>= f) := by
+  intro s a s'
+  show f (strictOf e) (strictOf e) s = .ok a s' → f (nonStrict e) (nonStrict e) s = .ok a s'
+  rw [h1, h2]
+  exact h s a s'
+theorem Fwd.getState_bind {β} {f : PState → PM β} (h : ∀ s0, Fwd e (f s0)) : Fwd e (getState >>= f) :=
+  fun s => h s s
+theorem Fwd.getTokenpos_bind {β} {f : Nat → PM β} (h : ∀ p, Fwd e (f p)) : Fwd e (getTokenpos >>= f) :=
+  fun s => h s.pos s
+theorem Fwd.peekToken_bind {β} {f : Option PTok → PM β} (h : ∀ o, Fwd e (f o)) : Fwd e (peekToken >>= f) :=
+  fun s => h e.toks[s.pos]? s
+
+theorem Fwd.errorOrLog_bind {β} {k : DK} {f : Unit → PM β} : Fwd e (errorOrLog k >>= f) := by
+  intro s a s' hr
+  rw [bind_eq, errorOrLog_strict] at hr
+  cases hr
+
+theorem Fwd.eol {k : DK} : Fwd e (errorOrLog k) := by
+  intro s a s' hr
+  rw [errorOrLog_strict] at hr
+  cases hr
+
+theorem Fwd.condE {β} {p : Prop} [Decidable p] {k : DK} {f : Unit → PM β} (h : Fwd e (f ())) :
+    Fwd e (if p then errorOrLog k >>= f else f ()) := by
+  split
+  · exact Fwd.errorOrLog_bind
+  · exact h
+
+theorem Fwd.condW {β} {p : Prop} [Decidable p] {k : DK} {f : Unit → PM β} (h : Fwd e (f ())) :
+    Fwd e (if p then logWarning k >>= f else f ()) := by
+  split
+  · exact Fwd.bind (Fwd.of_indep (Indep.logWarning k)) (fun _ => h)
+  · exact h
+
+theorem Fwd.condF {β} {p : Prop} [Decidable p] {k : DK} {f : Unit → PM β} (h : Fwd e (f ())) :
+    Fwd e (if p then (A2l.Tree.fail k : PM Unit) >>= f else f ()) := by
+  split
+  · exact Fwd.bind (Fwd.fail k) (fun _ => h)
+  · exact h
+
+theorem Fwd.ite {α} {p : Prop} [Decidable p] {a b : PM α} (h1 : Fwd e a) (h2 : Fwd e b) :
+    Fwd e (if p then a else b) := by
+  split
+  · exact h1
+  · exact h2
+
+theorem Fwd.ite_bind {α β} {p : Prop} [Decidable p] {a b : PM α} {f : α → PM β}
+    (h : Fwd e ((if p then a else b) >>= f)) : Fwd e (if p then a >>= f else b >>= f) := by
+  split
+  · rename_i hp; rw [if_pos hp] at h; exact h
+  · rename_i hp; rw [if_neg hp] at h; exact h
+
+theorem getIdentifier_fwd (ctx : Ctx) : Fwd e (getIdentifier ctx) := by
+  unfold getIdentifier
+  refine Fwd.bind (Fwd.of_indep (expectToken_indep ctx 0)) (fun t => ?_)
+  split
+  · exact Fwd.panic
+  · dsimp only
+    exact Fwd.condE (Fwd.pure _)
+
+theorem getString_fwd (ctx : Ctx) : Fwd e (getString ctx) := by
+  unfold getString
+  refine Fwd.peekToken_bind (fun o => ?_)
+  split
+  · exact Fwd.bind (getIdentifier_fwd ctx) (fun text => Fwd.errorOrLog_bind)
+  · refine Fwd.bind (Fwd.of_indep (expectToken_indep ctx 4)) (fun t => ?_)
+    split
+    · exact Fwd.pure _
+    · exact Fwd.panic
+
+theorem getStringMaxlen_fwd (ctx : Ctx) (n : Nat) : Fwd e (getStringMaxlen ctx n) := by
+  unfold getStringMaxlen
+  refine Fwd.bind (getString_fwd ctx) (fun text => ?_)
+  dsimp only
+  exact Fwd.condE (Fwd.pure _)
+
+theorem parseEnum_fwd (items : List EnumItem) (ctx : Ctx) : Fwd e (parseEnum items ctx) := by
+  unfold parseEnum
+  refine Fwd.bind (getIdentifier_fwd ctx) (fun name => ?_)
+  refine Fwd.getEnv_bind rfl rfl ?_
+  refine Fwd.getState_bind (fun s0 => ?_)
+  dsimp only
+  split
+  · refine Fwd.condE ?_
+    refine Fwd.condW ?_
+    exact Fwd.pure _
+  · exact Fwd.fail _
+
+theorem handleUnknown_fwd (ctx : Ctx) (itemTag : List Char) (isB : Bool) (stop : List Nat) :
+    Fwd e (handleUnknownTaggedstructTag ctx itemTag isB stop) := by
+  unfold handleUnknownTaggedstructTag
+  exact Fwd.errorOrLog_bind
+
+/-! ### the mutual block -/
+
+theorem lookup_seqSafe {ty : Nat} {isB : Bool} {items : List ItemTy} {arms : List Arm} {hT : Bool}
+    (hsafe : seqSafeDeep e.table = true) (hlk : e.table.lookup ty = some (.block isB items arms hT)) :
+    items.all (seqSafeItem e.table) = true := by
+  obtain ⟨en, hmem, hd⟩ := lookup_mem hlk
+  have := List.all_eq_true.1 hsafe en hmem
+  rw [hd] at this
+  exact this
+
+structure AllFwd (e : Env) (fuel : Nat) : Prop where
+  item : ∀ ctx it, seqSafeItem e.table it = true → Fwd e (parseItem fuel ctx it)
+  arr : ∀ ctx of n, seqSafeItem e.table of = true → Fwd e (parseArr fuel ctx of n)
+  seq : ∀ ctx of stop acc, quietItem e.table e.table.length of = true → Fwd e (parseSeq fuel ctx of stop acc)
+  items : ∀ ctx its, its.all (seqSafeItem e.table) = true → Fwd e (parseItems fuel ctx its)
+  tagged : ∀ ctx arms pib ch cm, Fwd e (parseTagged fuel ctx arms pib ch cm)
+  type : ∀ ty ctx off, Fwd e (parseType fuel ty ctx off)
+
+theorem allFwd_zero : AllFwd e 0 := by
+  constructor
+  · intro ctx it _; rw [parseItem]; exact Fwd.outOfFuel
+  · intro ctx of n _; rw [parseArr]; exact Fwd.outOfFuel
+  · intro ctx of stop acc _; rw [parseSeq]; exact Fwd.outOfFuel
+  · intro ctx its _; rw [parseItems]; exact Fwd.outOfFuel
+  · intro ctx arms pib ch cm; rw [parseTagged]; exact Fwd.outOfFuel
+  · intro ty ctx off; rw [parseType]; exact Fwd.outOfFuel
+
+theorem Fwd.scalar {α} {m : PM α} {g : α → Nat → Val} (h : Fwd e m) :
+    Fwd e (m >>= fun v => A2l.Tree.getLineOffset >>= fun off => Pure.pure (g v off)) :=
+  Fwd.bind h (fun _ => Fwd.bind (Fwd.of_indep Indep.getLineOffset) (fun _ => Fwd.pure _))
+
+theorem parseItem_fwd {fuel : Nat} (ih : AllFwd e fuel) (ctx : Ctx) (it : ItemTy)
+    (hit : seqSafeItem e.table it = true) : Fwd e (parseItem (fuel + 1) ctx it) := by
+  cases it with
+  | ident => rw [parseItem]; exact Fwd.scalar (getIdentifier_fwd ctx)
+  | string => rw [parseItem]; exact Fwd.scalar (getString_fwd ctx)
+  | double => exact Fwd.of_indep (scalarItem_indep (.inr (.inl rfl)) _ _)
+  | float => exact Fwd.of_indep (scalarItem_indep (.inr (.inr rfl)) _ _)
+  | int w => exact Fwd.of_indep (scalarItem_indep (.inl ⟨_, rfl⟩) _ _)
+  | strMax n =>
+    rw [parseItem]
+    exact Fwd.bind (getStringMaxlen_fwd ctx n) (fun _ => Fwd.pure _)
+  | enumRef ty =>
+    rw [parseItem]
+    refine Fwd.getEnv_bind rfl rfl ?_
+    split
+    · exact Fwd.scalar (parseEnum_fwd _ ctx)
+    · exact Fwd.panic
+  | structRef ty => rw [parseItem]; exact ih.type ty ctx 0
+  | arr of dim => rw [parseItem]; exact Fwd.bind (ih.arr ctx of dim hit) (fun _ => Fwd.pure _)
+  | seq of stop => rw [parseItem]; exact Fwd.bind (ih.seq ctx of stop [] hit) (fun _ => Fwd.pure _)
+
+theorem parseArr_fwd {fuel : Nat} (ih : AllFwd e fuel) (ctx : Ctx) (of : ItemTy) (n : Nat)
+    (hit : seqSafeItem e.table of = true) : Fwd e (parseArr (fuel + 1) ctx of n) := by
+  cases n with
+  | zero => rw [parseArr]; exact Fwd.pure _
+  | succ n =>
+    rw [parseArr]
+    exact Fwd.bind (ih.item ctx of hit) (fun _ => Fwd.bind (ih.arr ctx of n hit) (fun _ => Fwd.pure _))
+
+theorem parseItems_fwd {fuel : Nat} (ih : AllFwd e fuel) (ctx : Ctx) (its : List ItemTy)
+    (hit : its.all (seqSafeItem e.table) = true) : Fwd e (parseItems (fuel + 1) ctx its) := by
+  cases its with
+  | nil => rw [parseItems]; exact Fwd.pure _
+  | cons it its =>
+    rw [parseItems]
+    simp only [List.all_cons, Bool.and_eq_true] at hit
+    exact Fwd.bind (ih.item ctx it hit.1) (fun _ => Fwd.bind (ih.items ctx its hit.2) (fun _ => Fwd.pure _))
+
+theorem parseSeq_fwd {fuel : Nat} (ih : AllFwd e fuel) (ctx : Ctx) (of : ItemTy) (stop : List Nat) (acc : List Val)
+    (hq : quietItem e.table e.table.length of = true) : Fwd e (parseSeq (fuel + 1) ctx of stop acc) := by
+  rw [parseSeq]
+  refine Fwd.getTokenpos_bind (fun cur => ?_)
+  refine Fwd.bind (Fwd.of_indep (Indep.attempt (quiet_indep _ _ hq fuel ctx))) (fun r => ?_)
+  split
+  · exact Fwd.bind (Fwd.of_indep (Indep.setTokenpos _)) (fun _ => Fwd.pure _)
+  · refine Fwd.getEnv_bind rfl rfl ?_
+    refine Fwd.getState_bind (fun s0 => ?_)
+    dsimp only
+    refine Fwd.ite ?_ ?_
+    · exact Fwd.bind (Fwd.of_indep (Indep.setTokenpos _)) (fun _ => Fwd.pure _)
+    · exact ih.seq ctx of stop _ hq
+
+theorem parseTagged_fwd {fuel : Nat} (ih : AllFwd e fuel) (ctx : Ctx) (arms : List Arm) (pib : Bool)
+    (ch : List (List Val)) (cm : List Cmt) : Fwd e (parseTagged (fuel + 1) ctx arms pib ch cm) := by
+  rw [parseTagged]
+  refine Fwd.bind (Fwd.of_indep (getNextTagOrComment_indep ctx)) (fun bc => ?_)
+  cases bc with
+  | comment tok off =>
+    dsimp only
+    refine Fwd.ite ?_ ?_
+    · exact Fwd.bind (Fwd.of_indep Indep.getNextId) (fun _ => ih.tagged _ _ _ _ _)
+    · exact ih.tagged _ _ _ _ _
+  | none => exact Fwd.pure _
+  | block tok isB off =>
+    dsimp only
+    generalize List.findIdx? (fun x => x.tag == tok.sym) arms = oi
+    cases oi with
+    | none =>
+      dsimp only
+      refine Fwd.ite ?_ ?_
+      · exact Fwd.bind (handleUnknown_fwd ctx _ _ _) (fun _ => ih.tagged _ _ _ _ _)
+      · refine Fwd.ite ?_ ?_
+        · exact Fwd.bind (Fwd.of_indep Indep.undoGetToken) (fun _ =>
+            Fwd.bind (Fwd.of_indep Indep.undoGetToken) (fun _ => Fwd.pure _))
+        · exact Fwd.bind (Fwd.of_indep Indep.undoGetToken) (fun _ => Fwd.pure _)
+    | some i =>
+      dsimp only
+      generalize arms[i]? = oarm
+      cases oarm with
+      | none => exact Fwd.panic
+      | some arm =>
+        dsimp only
+        refine Fwd.condF ?_
+        refine Fwd.condF ?_
+        refine Fwd.getState_bind (fun s0 => ?_)
+        refine Fwd.condE ?_
+        refine Fwd.getState_bind (fun s1 => ?_)
+        refine Fwd.condW ?_
+        refine Fwd.bind (ih.type _ _ _) (fun v => ?_)
+        refine Fwd.ite ?_ ?_
+        · exact ih.tagged _ _ _ _ _
+        · exact Fwd.condE (ih.tagged _ _ _ _ _)
+
+theorem foldlM_fwd {X : Type} (F : Unit → X → PM Unit) (hF : ∀ u x, Fwd e (F u x)) :
+    ∀ (l : List X) (u : Unit), Fwd e (List.foldlM F u l)
+  | [], u => by rw [List.foldlM_nil]; exact Fwd.pure _
+  | x :: l, u => by
+    rw [List.foldlM_cons]
+    exact Fwd.bind (hF u x) (fun u' => foldlM_fwd F hF l u')
+
+theorem special_fwd (hsp : SpecialSim e) (ty : Nat) (ctx : Ctx) (off : Nat) :
+    Fwd e (fun e s => e.special ty ctx off e.toks e.strict s) := by
+  intro s v s' hr
+  exact (hsp ty ctx off s).2.1 v s' hr
+
+theorem parseType_fwd (hsafe : seqSafeDeep e.table = true) (hsp : SpecialSim e) {fuel : Nat} (ih : AllFwd e fuel)
+    (ty : Nat) (ctx : Ctx) (off : Nat) : Fwd e (parseType (fuel + 1) ty ctx off) := by
+  rw [parseType]
+  refine Fwd.getEnv_bind rfl rfl ?_
+  split
+  · rename_i isB items arms hT hlk
+    refine Fwd.bind (Fwd.of_indep Indep.getNextId) (fun uid => ?_)
+    refine Fwd.bind (ih.items ctx items (lookup_seqSafe hsafe hlk)) (fun fields => ?_)
+    refine Fwd.ite_bind ?_
+    refine Fwd.bind (Fwd.ite (ih.tagged _ _ _ _ _) (Fwd.pure _)) (fun x => ?_)
+    obtain ⟨children, comments⟩ := x
+    dsimp only
+    refine Fwd.bind (foldlM_fwd _ ?_ _ _) (fun _ => ?_)
+    · intro u ac
+      exact Fwd.ite (Fwd.ite Fwd.eol (Fwd.fail _)) (Fwd.pure _)
+    · refine Fwd.ite ?_ (Fwd.pure _)
+      refine Fwd.bind (Fwd.of_indep (expectToken_indep ctx 2)) (fun _ => ?_)
+      refine Fwd.bind (Fwd.of_indep Indep.getLineOffset) (fun endOff => ?_)
+      refine Fwd.bind (getIdentifier_fwd ctx) (fun ident => ?_)
+      exact Fwd.condE (Fwd.pure _)
+  · exact special_fwd hsp ty ctx off
+  · exact Fwd.panic
+
+theorem allFwd (hsafe : seqSafeDeep e.table = true) (hsp : SpecialSim e) : ∀ fuel, AllFwd e fuel
+  | 0 => allFwd_zero
+  | fuel + 1 =>
+    have ih := allFwd hsafe hsp fuel
+    ⟨parseItem_fwd ih, parseArr_fwd ih, parseSeq_fwd ih, parseItems_fwd ih, parseTagged_fwd ih,
+     parseType_fwd hsafe hsp ih⟩
+
 end A2l.Tree
